@@ -140,7 +140,9 @@ def select_appenders(u, fl, PB, generic=False):
          spec="ensures final(self).unions@ == old(self).unions@.push((union_type, query)), %s," % frame("unions"))
     u.fn(S, "impl SelectStatement", "unions", props=PB, key="SelectStatement::unions", vpath="SelectStatement::unions",
          rules=[r_retself, make_r_sub("R-collect", r"unions<T: IntoIterator<Item = \(UnionType, SelectStatement\)>>\(\s*&mut self,\s*unions: T,\s*\)", "unions(&mut self, unions: Vec<(UnionType, SelectStatement)>)"),
-                make_r_sub("R-collect", r"self\.unions\.extend\(unions\);", "vextend(&mut self.unions, unions);")],
+                # the argument is a Vec here (rule above): extending by it appends its elements; collecting it gives the Vec itself
+                make_r_sub("R-collect", r"self\.unions\.extend\(unions\);", "vextend(&mut self.unions, unions);", min_count=0),
+                make_r_sub("R-collect", r"self\.unions = unions\.into_iter\(\)\.collect\(\);", "self.unions = unions;", min_count=0)],
          spec="ensures final(self).unions@ == old(self).unions@ + unions@, %s," % frame("unions"))
     for nm in ["limit", "offset"]:
         u.fn(S, "impl SelectStatement", nm, props=PB, key="SelectStatement::" + nm, vpath="SelectStatement::" + nm,
